@@ -681,16 +681,19 @@ def wrap_check(ctx, c, outs):
         mo[4] = mo[4][:3] + [math.inf if mo[4][3] == 1.0 else mo[4][4]]
         w_ = 2 * math.acos(min(1.0, abs(qn[0])))
         f_ = 0.75 * (w_ - math.sin(w_))
-        hot = 1e-13 + (1e-15 * w_ / (f_ ** (2 / 3)) if f_ > 0 else 0.0)
-        tols = [np.full(9, 1e-14), np.full(3, et), np.full(3, et * 60), np.full(3, 1e-12),
-                np.array([1e-13] * 3 + [1e-10 * max(1.0, abs(rf[3]) if math.isfinite(rf[3]) else 1.0)]),
+        # arccos(a) near a = 1: the two sides normalise q with differently rounded sums (a differs by an ulp), which
+        # moves the angle by 2 ulp / |vec q|
+        ac = 16 * 2.3e-16 / max(float(np.linalg.norm(qn[1:])), 1e-300)
+        hot = 1e-13 + (1e-15 * w_ / (f_ ** (2 / 3)) if f_ > 0 else 0.0) + ac
+        tols = [np.full(9, 1e-14), np.full(3, et), np.full(3, et * 60), np.full(3, 1e-12 + ac),
+                np.array([1e-13] * 3 + [ac + 1e-10 * max(1.0, abs(rf[3]) if math.isfinite(rf[3]) else 1.0)]),
                 None, np.full(3, hot)]
         for name, m, im, tl in zip(WOPS, mo, impl, tols):
             if im is None:
                 continue
             im = [float(x) for x in im]
             if name == "toRodrigues":
-                tl = np.array([1e-10 * max(1.0, abs(x)) if math.isfinite(x) else 1.0 for x in im])
+                tl = np.array([ac + 1e-10 * max(1.0, abs(x)) if math.isfinite(x) else 1.0 for x in im])
                 if abs(qn[0]) < 1e-7:     # tan(pi/2 - tiny): huge, ill-conditioned; compare direction only
                     nm, ni = np.array(m), np.array(im)
                     if np.linalg.norm(nm / np.linalg.norm(nm) - ni / np.linalg.norm(ni)) > 1e-9:
@@ -811,31 +814,26 @@ def _angle(q):
     return 2 * math.atan2(float(np.linalg.norm(q[1:])), abs(q[0]))
 
 
-def pred_ho_small_angle(c):
-    """to_homochoric -> from_homochoric round trip of a rotation by less than 2e-4 rad (|h|^2 < 1e-8 in ho2ax_single)"""
+def pred_ho_fit_near_identity(c):
+    """to_homochoric -> from_homochoric round trip of a rotation by less than 1e-6 rad (constant term of the fit)"""
     q = _stored(c)
-    return len(q) == 1 and q[0, 0] >= 0 and 0 < _angle(q[0]) < 2.0001e-4
+    return len(q) == 1 and q[0, 0] >= 0 and 0 < _angle(q[0]) < 1e-6
 
 
-def pred_ho_small_vector(c):
+def pred_ho_fit_small_vector(c):
     h = np.array(c.get("ho", [[1.0, 0, 0]]), float).reshape(-1, 3)
-    return len(h) == 1 and 0 < float((h[0] ** 2).sum()) < 1e-8
+    return len(h) == 1 and 0 < float(np.linalg.norm(h[0])) < 5e-7
 
 
-def pred_axis_threshold(c):
-    """to_rodrigues() of a quaternion with -1e-6 <= a < 0 (Quaternion.axis flips the axis only below -1e-6)"""
-    q = _stored(c)
-    return len(q) == 1 and -1e-6 * (1 + 1e-6) <= q[0, 0] < 0
-
-
-PREDICATES = {"c01_ho_small_angle": pred_ho_small_angle, "c01_ho_small_vector": pred_ho_small_vector,
-              "c01_axis_threshold": pred_axis_threshold, "c01_ho_negative_scalar": pred_ho_negative_scalar, "c01_euler_phi_pi_bc": pred_euler_phi_pi_bc,
+PREDICATES = {"c01_ho_fit_near_identity": pred_ho_fit_near_identity,
+              "c01_ho_fit_small_vector": pred_ho_fit_small_vector,
+              "c01_ho_negative_scalar": pred_ho_negative_scalar, "c01_euler_phi_pi_bc": pred_euler_phi_pi_bc,
               "c01_rf_cutoff": pred_rf_cutoff}
 
 
 # ---- generators -----------------------------------------------------------------------------------------------
 STRATA = ["haar", "haar", "lower", "identity", "near0", "nearpi", "pi", "pi_mixed", "axis", "nearaxis", "plane",
-          "gimbal0", "gimbalpi", "neargimbal0", "neargimbalpi", "pyth", "negident"]
+          "gimbal0", "gimbalpi", "neargimbal0", "neargimbalpi", "pyth", "negident", "tiny", "negzero"]
 
 
 def eu_quat(p1, P, p2):
@@ -852,6 +850,17 @@ def gen_q(rng, s):
     sg = rng.choice([-1.0, 1.0])
     if s == "negident":
         return [-1.0, 0.0, 0.0, 0.0]
+    if s == "negzero":   # scalar part in [-1e-6, -3e-8]: just below zero (angle just below pi, lower hemisphere)
+        a = -float(10.0 ** rng.uniform(-7.5, -6))
+        ax = rng.normal(size=3)
+        ax /= np.linalg.norm(ax)
+        return [a] + [float(x) for x in ax * math.sqrt(1 - a * a)]
+    if s == "tiny":   # rotation angle log-uniform in [2e-8, 1e-6]
+        w = float(10.0 ** rng.uniform(math.log10(2e-8), -6))
+        ax = rng.normal(size=3)
+        ax /= np.linalg.norm(ax)
+        q = np.concatenate([[math.cos(w / 2)], math.sin(w / 2) * ax]) * sg
+        return [float(x) for x in q]
     if s == "pi_mixed":
         v = rng.normal(size=3) * rng.choice([-1.0, 1.0], 3)
         if rng.random() < 0.4:
@@ -1040,9 +1049,10 @@ def generate(ctx):
             ctx.count("from_rodrigues/frank", ("frf", c["ro"], mag), nontrivial=mag != 0.0)
         yield "from_rodrigues", c
         # homochoric vectors inside the ball
-        rad = float([rng.uniform(0, HO_MAX), HO_MAX * (1 - 1e-9), 10.0 ** -rng.integers(1, 7), 0.0][i % 4])
+        rad = float([rng.uniform(0, HO_MAX), HO_MAX * (1 - 1e-9), 10.0 ** -rng.integers(1, 7), 0.0,
+                     10.0 ** rng.uniform(-8, -6.3)][i % 5])
         c = {"cls": cls, "ho": [[float(x) for x in d * rad]]}
-        ctx.count(f"from_homochoric/{['ball', 'surface', 'small', 'zero'][i % 4]}", ("fh", c["ho"]), nontrivial=rad > 0)
+        ctx.count(f"from_homochoric/{['ball', 'surface', 'small', 'zero', 'tiny'][i % 5]}", ("fh", c["ho"]), nontrivial=rad > 0)
         yield "from_homochoric", c
 
 
